@@ -76,7 +76,7 @@ Qed.
 
 Lemma conv_bed c s e rest :
   read_bed_line (c :: print_Z s :: print_Z e :: rest)
-  = Some ((c, s + 0, e), [nth 0 rest "-"%string; nth 2 rest "."%string]).
+  = Some ((c, s + 0, e), [rstrip_ws (nth 0 rest "-"%string); rstrip_ws (nth 2 rest "."%string)]).
 Proof. unfold read_bed_line. now rewrite !parse_print. Qed.
 
 Lemma conv_tab c s e ex :
@@ -229,16 +229,24 @@ Proof.
   - intros [[[c s] e] ex] _. cbn. rewrite !parse_print. now rewrite off_bed3_zero.
 Qed.
 
+(* the name column comes back rstrip()ped: labels must not end in white space *)
+Definition bed_gene_ok (r : row) : bool :=
+  String.eqb (rstrip_ws (nth 0 (snd r) bed_default_gene)) (nth 0 (snd r) bed_default_gene).
+
 Theorem roundtrip_bed4 (t : list row) :
   Forall (fun r => bed_name_ok (fst (fst (fst r))) = true) t ->
+  Forall (fun r => bed_gene_ok r = true) t ->
   read_bed4 (write_bed4 t) = Some (sort_rows (map (fun r => (fst r, [nth 0 (snd r) "-"%string])) t)).
 Proof.
-  intros H. unfold read_bed4, write_bed4.
+  intros H HG. unfold read_bed4, write_bed4.
   rewrite bed_body_id by (apply bed_lines_ok; auto; intros [[[c s] e] ex]; reflexivity).
   rewrite (all_some_map_map bed4_line read_bed_line
              (fun r : row => (fst r, [nth 0 (snd r) bed_default_gene; bed_default_strand]))).
   - cbn. now rewrite map_map.
-  - intros [[[c s] e] ex] _. cbn. rewrite !parse_print. now rewrite off_bed4_zero.
+  - intros [[[c s] e] ex] Hin. rewrite Forall_forall in HG. specialize (HG _ Hin).
+    unfold bed_gene_ok in HG. apply String.eqb_eq in HG. cbn [snd] in HG.
+    unfold bed4_line, read_bed_line. cbn [coord_fields fst snd app nth]. rewrite !parse_print.
+    rewrite HG. now rewrite off_bed4_zero.
 Qed.
 
 Theorem roundtrip_tab (h : list string) (t : list row) :
